@@ -101,7 +101,68 @@ class Interp:
         name = f'{kind}@L{rel}#{n}/p{p.pid()}'
         extra = [t for k, t in getattr(self, 'scoped', []) if k in kind]
         goal, inst = self.skolemize_goal(goal, list(p.pc) + extra)
+        inst = inst + self.match_lemmas([goal] + inst + list(p.pc) + extra)
         p.obligs.append(Obligation(name, kind, list(p.pc) + extra + inst, goal, line, p.pid(), note))
+
+    def match_lemmas(self, terms, cap=60):
+        """instances of the universally quantified lemma instances (uses=[(lemma, {v: '*'})]) at the ground terms of this obligation that
+        match the lemma's trigger (the left-hand side of its equational goal): plain first-order matching, one level — what E-matching
+        would do, done here so that every back end gets the instances (the quantified lemma itself stays among the assumptions)"""
+        ql = getattr(self, 'qlemmas', None)
+        if not ql:
+            return []
+        ground, seen, stack = [], set(), [t for t in terms if z3.is_expr(t)]
+        while stack:
+            t = stack.pop()
+            if t.get_id() in seen:
+                continue
+            seen.add(t.get_id())
+            if z3.is_quantifier(t):
+                continue
+            if z3.is_app(t) and t.num_args() > 0:
+                ground.append(t)
+                stack.extend(t.children())
+        out, done = [], set()
+        for _round in (0, 1):
+          # (second round: the terms of the first round's instances — an unfolding nsel(s, n) = nsel(s, n - 1) + ... brings nsel(s, n - 1))
+          if _round == 1:
+            stack = list(out)
+            while stack:
+                t = stack.pop()
+                if t.get_id() in seen:
+                    continue
+                seen.add(t.get_id())
+                if z3.is_quantifier(t):
+                    continue
+                if z3.is_app(t) and t.num_args() > 0:
+                    ground.append(t)
+                    stack.extend(t.children())
+          for qvars, body, pat in ql:
+              qids = {q.get_id(): q for q in qvars}
+
+              def match(pt, gt, b):
+                  if pt.get_id() in qids:
+                      if pt.sort() != gt.sort():
+                          return False
+                      if pt.get_id() in b:
+                          return b[pt.get_id()].get_id() == gt.get_id()
+                      b[pt.get_id()] = gt
+                      return True
+                  if not (z3.is_app(pt) and z3.is_app(gt)) or pt.decl().name() != gt.decl().name() or pt.num_args() != gt.num_args() or pt.sort() != gt.sort():
+                      return False
+                  if pt.num_args() == 0:
+                      return pt.get_id() == gt.get_id()
+                  return all(match(pc_, gc_, b) for pc_, gc_ in zip(pt.children(), gt.children()))
+              for g in ground:
+                  if g.decl().name() != pat.decl().name():
+                      continue
+                  b = {}
+                  if match(pat, g, b) and len(b) == len(qvars):
+                      key = (body.get_id(),) + tuple(b[q.get_id()].get_id() for q in qvars)
+                      if key not in done and len(out) < cap:
+                          done.add(key)
+                          out.append(z3.substitute(body, *[(q, b[q.get_id()]) for q in qvars]))
+        return out
 
     def skolemize_goal(self, goal, pc):
         """a goal `forall k: Int. body(k)` (or a conjunction with such parts) is proved for a fresh constant instead, and every
